@@ -212,6 +212,12 @@ def client_workload(seed, tier):
             for nr in (16, 64):
                 # the released 4.4.33 has F3 for $1$/$5$/$6$ with nrbytes in {3,6,9,12}: never used here
                 lines.append("g %s %d %s" % (pool.hx(pre), cnt, facts.rbytes_pattern("rnd", nr, cnt).hex()))
+    # the smallest output buffer each prefix works with (old binaries have their header's size compiled in)
+    for m in facts.GENSALT_METHODS + [None]:
+        pre = gen.TAG[m] if m else None
+        for cnt in sorted(set([0] + facts.interesting_counts(m or "yescrypt")[:2])):
+            for nr in (16, 32):
+                lines.append("z %s %d %s" % (pool.hx(pre), cnt, facts.rbytes_pattern("rnd", nr, cnt + 1).hex()))
     for i in range(50 if tier == "quick" else 2000):
         lines.append("d %016x %016x" % (rng.getrandbits(64), rng.getrandbits(64)))
     hs = [b"ab", b"$1$saltsalt", b"_J9..rasm", b"$6$rounds=1000$xy", b"$y$j5.$c2FsdHNhbHQ", b"*0", b"$9$unknown", b"ab:cd",
